@@ -2,6 +2,7 @@ package main
 
 import (
 	"fmt"
+	"go/token"
 	"go/types"
 	"strings"
 
@@ -149,6 +150,9 @@ func c07FollowBytes(w *World, f *ssa.Function, v ssa.Value, from *ssa.Parameter,
 			if fld := fieldName(fa.X.Type(), fa.Field); fld == "Content" || fld == "Payload" {
 				*out = append(*out, c07Sink{Fn: f, Store: x, DescParam: from, DescWhy: why})
 			}
+		case *ssa.Call:
+			// handed to a module function (a constructor of the request, say): the callee's parameter is this very value
+			c07FollowDown(w, f, x, v, from, why, depth+1, out)
 		case *ssa.Return:
 			for k, rv := range x.Results {
 				if rv != v {
@@ -180,6 +184,74 @@ func c07FollowBytes(w *World, f *ssa.Function, v ssa.Value, from *ssa.Parameter,
 			}
 		}
 	}
+}
+
+// c07FollowDown: v (the marshalled payload, in the signing function `signer`) is an argument of call. A parameter of a
+// module function is, during that call, the argument passed for it; so a store of the parameter into the Content /
+// Payload field of a request inside the callee (or a callee of it) is a store of the signer's bytes. The sink is booked on
+// the signer (it is the function whose descriptor parameter the payload was built from); the store tells where the request
+// is filled.
+func c07FollowDown(w *World, signer *ssa.Function, call *ssa.Call, v ssa.Value, from *ssa.Parameter, why string, depth int, out *[]c07Sink) {
+	g := staticCallee(call)
+	if depth > 3 || g == nil || g.Blocks == nil || !w.IsProductFn(g) || len(call.Call.Args) != len(g.Params) {
+		return
+	}
+	var follow func(pv ssa.Value, n int)
+	follow = func(pv ssa.Value, n int) {
+		if n > 3 || pv.Referrers() == nil {
+			return
+		}
+		for _, r := range *pv.Referrers() {
+			switch x := r.(type) {
+			case *ssa.Store:
+				if x.Val != pv {
+					continue
+				}
+				if fa, ok := x.Addr.(*ssa.FieldAddr); ok {
+					if fld := fieldName(fa.X.Type(), fa.Field); fld == "Content" || fld == "Payload" {
+						*out = append(*out, c07Sink{Fn: signer, Store: x, DescParam: from, DescWhy: why})
+					}
+				} else if al, ok := x.Addr.(*ssa.Alloc); ok && onlyDirectStore(al) == pv && al.Referrers() != nil {
+					// the parameter's spill cell: its loads are the parameter
+					for _, lr := range *al.Referrers() {
+						if ld, ok := lr.(*ssa.UnOp); ok && ld.Op == token.MUL {
+							follow(ld, n+1)
+						}
+					}
+				}
+			case *ssa.Call:
+				c07FollowDown(w, signer, x, pv, from, why, depth+1, out)
+			}
+		}
+	}
+	for i, a := range call.Call.Args {
+		if a == v {
+			follow(g.Params[i], 0)
+		}
+	}
+}
+
+// c07DecidedUpward: the quantity rendered d in fn's vocabulary satisfies ok in fn — or, when fn is a helper that is
+// handed less than the signer was (a closed list of call sites, c07CallSites: the helper runs only on behalf of those
+// calls, its parameters being their arguments), in every caller, after rewriting d into the caller's vocabulary.
+func c07DecidedUpward(w *World, fn *ssa.Function, d string, ok func(fn *ssa.Function, d string) bool, depth int) bool {
+	if ok(fn, d) {
+		return true
+	}
+	if depth >= 3 || !strings.Contains(d, "param:") {
+		return false
+	}
+	sites, closed := c07CallSites(w, fn)
+	if !closed || len(sites) == 0 {
+		return false
+	}
+	for _, site := range sites {
+		up := c07LiftOnce(d, fn, site)
+		if strings.Contains(up, "param?:") || !c07DecidedUpward(w, site.Parent(), up, ok, depth+1) {
+			return false
+		}
+	}
+	return true
 }
 
 // c07ResultOf: the value of result k of a call (the call itself for a single result).
@@ -216,22 +288,325 @@ func c07SinkFns(ws []*c07Writer) []*ssa.Function {
 	return out
 }
 
+// ---- values followed through phis, locals and module helpers ---------------------------
+//
+// Several clauses of C07 are statements about *which value* ends up somewhere (the expiry stored in the request, the map
+// UserMetadata returns, the descriptor VerifyBlob returns). Where the value is computed is not part of the property: it
+// may be written in place, held in a local that is defaulted and overwritten (a phi), or computed by a module helper
+// that is handed the ingredients. c07Origins enumerates every way the value can have been produced, each with the
+// facts known to hold whenever that way is the one taken, so the clause is decided once per origin.
+
+// c07Frame: the body of Fn, entered through the call Call sitting in the frame Up (the root frame — the function the
+// obligation is anchored in — has no Call and no Up).
+type c07Frame struct {
+	Fn   *ssa.Function
+	Call *ssa.Call
+	Up   *c07Frame
+}
+
+func (f *c07Frame) depth() int {
+	n := 0
+	for g := f; g.Up != nil; g = g.Up {
+		n++
+	}
+	return n
+}
+
+func (f *c07Frame) root() *c07Frame {
+	for f.Up != nil {
+		f = f.Up
+	}
+	return f
+}
+
+// c07LiftOnce rewrites a rendering made in the vocabulary of fn into the vocabulary of the function containing call
+// (a call of fn): every param:<p> becomes the rendering of the argument bound to p at that call.
+func c07LiftOnce(s string, fn *ssa.Function, call *ssa.Call) string {
+	var names, descs []string
+	args := call.Call.Args
+	for i, p := range fn.Params {
+		if i < len(args) {
+			names = append(names, p.Name())
+			descs = append(descs, desc(args[i]))
+		}
+	}
+	return substParams(s, names, descs)
+}
+
+// lift renders, in the vocabulary of the root frame, a description or label made in f's vocabulary.
+func (f *c07Frame) lift(s string) string {
+	for g := f; g.Up != nil; g = g.Up {
+		s = c07LiftOnce(s, g.Fn, g.Call)
+	}
+	return s
+}
+
+func (f *c07Frame) liftAll(labels map[string]string) map[string]string {
+	if f.Up == nil || len(labels) == 0 {
+		return labels
+	}
+	out := map[string]string{}
+	for l, site := range labels {
+		if ll := f.lift(l); !strings.Contains(ll, "param?:") {
+			out[ll] = site
+		}
+	}
+	return out
+}
+
+// resolve follows a value that is a parameter bound by the frame's call to the argument in the calling frame
+// (repeatedly), looking through locals that hold nothing but one value.
+func (f *c07Frame) resolve(v ssa.Value) (ssa.Value, *c07Frame) {
+	for {
+		v = loadOrigin(v)
+		p, ok := v.(*ssa.Parameter)
+		if !ok || f.Up == nil || p.Parent() != f.Fn {
+			return v, f
+		}
+		i := c07ParamIndex(f.Fn, p)
+		if i < 0 || i >= len(f.Call.Call.Args) {
+			return v, f
+		}
+		v, f = f.Call.Call.Args[i], f.Up
+	}
+}
+
+// c07Enter: the frame of the static module callee of call (nil: not a module function with a body, recursion, too deep).
+func c07Enter(w *World, f *c07Frame, call *ssa.Call) *c07Frame {
+	g := staticCallee(call)
+	if g == nil || g.Blocks == nil || !w.IsProductFn(g) || len(call.Call.Args) != len(g.Params) || f.depth() >= 3 {
+		return nil
+	}
+	for h := f; h != nil; h = h.Up {
+		if h.Fn == g {
+			return nil
+		}
+	}
+	return &c07Frame{Fn: g, Call: call, Up: f}
+}
+
+func c07Union(a, b map[string]string) map[string]string {
+	if len(b) == 0 {
+		return a
+	}
+	out := make(map[string]string, len(a)+len(b))
+	for k, v := range a {
+		out[k] = v
+	}
+	for k, v := range b {
+		if _, ok := out[k]; !ok {
+			out[k] = v
+		}
+	}
+	return out
+}
+
+// c07PhiEdgeGuards: the facts known when phi takes its i-th edge — everything every path from the entry to the
+// predecessor block must pass, plus the branch fact of the edge itself when the predecessor ends in a test.
+func c07PhiEdgeGuards(fi *FnInfo, phi *ssa.Phi, i int) map[string]string {
+	b := phi.Block()
+	if i >= len(b.Preds) {
+		return nil
+	}
+	p := b.Preds[i]
+	out := map[string]string{}
+	if t := blockTerm(p); t != nil {
+		for l, s := range fi.GuardsOf(t) {
+			out[l] = s
+		}
+	}
+	if iff, ok := blockTerm(p).(*ssa.If); ok && len(p.Succs) == 2 && p.Succs[0] != p.Succs[1] {
+		l := condLabel(iff.Cond, p.Succs[0] == b)
+		out[l] = fi.W.InstrPos(iff)
+		if tw, ok := labelTwin(l); ok {
+			out[tw] = fi.W.InstrPos(iff)
+		}
+	}
+	return out
+}
+
+// c07ExitValue: result k at a success-capable exit. The engine keeps the exits of a return block whose operand is a phi
+// of that block apart by predecessor (ExitSum.Pred), so at such an exit the phi is the edge of that predecessor and the
+// exit's must-pass facts are those of the paths through that edge.
+func c07ExitValue(ex *ExitSum, k int) ssa.Value {
+	v := ex.Ret.Results[k]
+	if p, ok := v.(*ssa.Phi); ok && p.Block() == ex.Ret.Block() && ex.Pred >= 0 && ex.Pred < len(p.Edges) {
+		return p.Edges[ex.Pred]
+	}
+	return v
+}
+
+// c07Origin: one way a value can have been produced.
+type c07Origin struct {
+	V      ssa.Value         // not a phi, not a bound parameter, not the result of a module function with a body
+	F      *c07Frame         // the frame V lives in
+	Guards map[string]string // facts that hold whenever V is the value that arrives, in the root frame's vocabulary
+}
+
+// c07Origins enumerates the origins of v (a value of frame f) given the facts `guards` already known at the use.
+//
+// Soundness of the steps:
+//   - local holding one value (loadOrigin): the load yields that value;
+//   - definition guards: an SSA value exists only on paths through its defining instruction, so what every path to the
+//     definition must pass holds at every use;
+//   - phi: the value is one of the edges, and on edge i the facts of c07PhiEdgeGuards hold;
+//   - parameter of an entered frame: it is the argument of the call the frame was entered through;
+//   - result k of a call of a module function g: it is operand k of one of g's Returns, under what every path to that
+//     Return must pass in g (the callee's parameters rewritten to the call's arguments). When the caller is known to have
+//     seen a nil error from that call, only g's success-capable exits (engine summary) can have delivered the value.
+//
+// complete is false when the walk was cut (depth): the list is then not exhaustive and nothing may be concluded from it.
+func c07Origins(w *World, f *c07Frame, v ssa.Value, guards map[string]string) (out []c07Origin, complete bool) {
+	complete = true
+	type pk struct {
+		f *c07Frame
+		p *ssa.Phi
+	}
+	seen := map[pk]bool{}
+	var walk func(f *c07Frame, v ssa.Value, g map[string]string, depth int)
+	walk = func(f *c07Frame, v ssa.Value, g map[string]string, depth int) {
+		v = loadOrigin(v)
+		if depth > 10 {
+			complete = false
+			out = append(out, c07Origin{v, f, g})
+			return
+		}
+		fi := w.Info(f.Fn)
+		if in, ok := v.(ssa.Instruction); ok && in.Parent() == f.Fn && in.Block() != nil {
+			g = c07Union(g, f.liftAll(fi.GuardsOf(in)))
+		}
+		switch x := v.(type) {
+		case *ssa.Phi:
+			if seen[pk{f, x}] {
+				return
+			}
+			seen[pk{f, x}] = true
+			for i, e := range x.Edges {
+				walk(f, e, c07Union(g, f.liftAll(c07PhiEdgeGuards(fi, x, i))), depth+1)
+			}
+			return
+		case *ssa.Parameter:
+			if f.Up != nil && x.Parent() == f.Fn {
+				if i := c07ParamIndex(f.Fn, x); i >= 0 && i < len(f.Call.Call.Args) {
+					walk(f.Up, f.Call.Call.Args[i], g, depth+1)
+					return
+				}
+			}
+		case *ssa.Call:
+			if _, isTuple := x.Type().(*types.Tuple); !isTuple {
+				if nf := c07Enter(w, f, x); nf != nil {
+					c07WalkReturns(w, nf, 0, false, g, func(rv ssa.Value, rg map[string]string) { walk(nf, rv, rg, depth+1) })
+					return
+				}
+			}
+		case *ssa.Extract:
+			if call, ok := x.Tuple.(*ssa.Call); ok {
+				if nf := c07Enter(w, f, call); nf != nil {
+					errNil := labelHas(g, f.lift("EQ("+desc(call)+"#err,nil)"))
+					c07WalkReturns(w, nf, x.Index, errNil, g, func(rv ssa.Value, rg map[string]string) { walk(nf, rv, rg, depth+1) })
+					return
+				}
+			}
+		}
+		out = append(out, c07Origin{v, f, g})
+	}
+	walk(f, v, guards, 0)
+	return out, complete
+}
+
+// c07WalkReturns visits operand k of the Returns of nf.Fn that can have delivered the call's result: all of them, or —
+// when the caller has seen a nil error (errNil) and the function's last result is its error — the success-capable exits
+// of the engine's summary, each with its own must-pass facts.
+func c07WalkReturns(w *World, nf *c07Frame, k int, errNil bool, g map[string]string, visit func(ssa.Value, map[string]string)) {
+	fn := nf.Fn
+	res := fn.Signature.Results()
+	if errNil && res.Len() > 1 && k != res.Len()-1 && isErrorType(res.At(res.Len()-1).Type()) {
+		if s := w.Summarize(fn, Mode{Kind: mErr}); s != nil && s.Complete {
+			for _, ex := range s.Exits {
+				if k < len(ex.Ret.Results) {
+					visit(c07ExitValue(ex, k), c07Union(g, nf.liftAll(ex.Checked)))
+				}
+			}
+			return
+		}
+	}
+	fi := w.Info(fn)
+	for _, b := range fn.Blocks {
+		if r, ok := blockTerm(b).(*ssa.Return); ok && k < len(r.Results) {
+			visit(r.Results[k], c07Union(g, nf.liftAll(fi.GuardsOf(r))))
+		}
+	}
+}
+
+// c07CallSites returns the static call sites of fn in the product code. closed is false when fn may also be entered in a
+// way the list does not show: it is exported, a closure, used as a value (method value, argument, closure binding),
+// started by go/defer, or is a method an interface call of the module may dispatch to. Only a closed list licenses
+// "every caller …" arguments. (Same construction as C05's call-site list; kept here so that this rule set stands alone.)
+func c07CallSites(w *World, fn *ssa.Function) (sites []*ssa.Call, closed bool) {
+	closed = fn.Parent() == nil && fn.Synthetic == "" && !token.IsExported(fn.Name())
+	var recvT types.Type
+	if r := fn.Signature.Recv(); r != nil {
+		recvT = r.Type()
+	}
+	for _, g := range w.Funcs {
+		for _, b := range g.Blocks {
+			for _, in := range b.Instrs {
+				if ci, ok := in.(ssa.CallInstruction); ok {
+					com := ci.Common()
+					if com.IsInvoke() {
+						if recvT != nil && com.Method.Name() == fn.Name() {
+							if it, ok := com.Value.Type().Underlying().(*types.Interface); ok && types.Implements(recvT, it) {
+								closed = false
+							}
+						}
+					} else if com.StaticCallee() == fn {
+						if call, ok := in.(*ssa.Call); ok {
+							sites = append(sites, call)
+						} else {
+							closed = false
+						}
+					}
+					for _, a := range com.Args {
+						if a == ssa.Value(fn) {
+							closed = false
+						}
+					}
+					continue
+				}
+				for _, op := range in.Operands(nil) {
+					if op != nil && *op == ssa.Value(fn) {
+						closed = false
+					}
+				}
+				if mc, ok := in.(*ssa.MakeClosure); ok {
+					if wf, ok := mc.Fn.(*ssa.Function); ok && wf.Synthetic != "" && strings.HasPrefix(wf.Name(), fn.Name()+"$") {
+						closed = false
+					}
+				}
+			}
+		}
+	}
+	return sites, closed
+}
+
 // ---- expiry -----------------------------------------------------------------------
 
 // c07ExpiryValue decides the value stored into <request>.Expiry (st.Addr == fa, fa = &X.Expiry).
 //
 // The clause: the request's expiry is its own signing time plus the requested duration, and it is left zero (= no expiry)
-// when the duration is zero. The value may reach the field directly or through a variable that was computed beforehand
-// (a phi): every way the stored value can have been produced must be either
+// when the duration is zero. Every origin (c07Origins: in place, through a local computed ahead of the request, through a
+// module helper that is handed the ingredients) of the stored value must be either
 //   - the zero time.Time (no expiry), or
-//   - T.Add(<options parameter>.ExpiryDuration) computed under the fact ExpiryDuration != 0, where T is the signing time
-//     of the same request: the field X.SigningTime read back, or the very SSA value that is the only thing stored
-//     into X.SigningTime (one evaluation of the clock feeds both fields, so Expiry - SigningTime == duration exactly),
+//   - T.Add(D) where
+//     T is the signing time of the same request: the field X.SigningTime read back (in the storing function, or in a
+//     helper through a parameter bound to X), or the very SSA value that is the only thing stored into X.SigningTime
+//     (one evaluation of the clock feeds both fields, so Expiry - SigningTime == duration exactly); a helper's parameter
+//     counts as the argument bound to it;
+//     D is the requested duration, known to be non-zero where the sum is computed or stored (c07RequestedDuration),
 //
-// and at least one way must be the second one. The guard may dominate the Add (value computed ahead of the request)
-// or the store (request patched afterwards): an SSA value is only available on paths through its definition, so a
-// guard on the definition is a guard on every use.
-func c07ExpiryValue(fi *FnInfo, st *ssa.Store, fa *ssa.FieldAddr, ed string) (bool, string) {
+// and at least one origin must be of the second kind. The test D != 0 may guard the Add, the call of the helper that adds,
+// the helper's Return, or the store: each of them lies on every path that brings this sum into the field.
+func c07ExpiryValue(w *World, fi *FnInfo, st *ssa.Store, fa *ssa.FieldAddr) (bool, string) {
 	X := fa.X
 	var stTimes []ssa.Value
 	if X.Referrers() != nil {
@@ -247,63 +622,51 @@ func c07ExpiryValue(fi *FnInfo, st *ssa.Store, fa *ssa.FieldAddr, ed string) (bo
 			}
 		}
 	}
-	isSigningTime := func(t ssa.Value) bool {
-		if desc(t) == desc(X)+".SigningTime" {
+	isSigningTime := func(t ssa.Value, f *c07Frame) bool {
+		v, vf := f.resolve(t)
+		if vf.Up == nil && len(stTimes) == 1 && loadOrigin(stTimes[0]) == v {
 			return true
 		}
-		return len(stTimes) == 1 && loadOrigin(stTimes[0]) == loadOrigin(t)
-	}
-	want := "NE(" + ed + ",const:0)"
-	gStore := fi.GuardsOf(st)
-	nAdd := 0
-	why := ""
-	seen := map[ssa.Value]bool{}
-	var walk func(v ssa.Value, depth int) bool
-	walk = func(v ssa.Value, depth int) bool {
-		v = loadOrigin(v)
-		if seen[v] {
-			return true
-		}
-		seen[v] = true
-		if depth > 4 {
-			why = "value too deep to follow"
-			return false
-		}
-		switch x := v.(type) {
-		case *ssa.Phi:
-			for _, e := range x.Edges {
-				if !walk(e, depth+1) {
-					return false
+		// <r>.SigningTime read back, r being the request object itself (by identity of the SSA value, not by its
+		// rendering: two requests built in one function render alike) — in the storing function, or in a helper through a
+		// parameter bound to the request
+		if un, ok := v.(*ssa.UnOp); ok && un.Op == token.MUL {
+			if f2, ok := un.X.(*ssa.FieldAddr); ok && fieldName(f2.X.Type(), f2.Field) == "SigningTime" {
+				b, bf := vf.resolve(f2.X)
+				if bf.Up == nil && (b == X || loadOrigin(b) == loadOrigin(X)) {
+					return true
 				}
 			}
-			return true
+		}
+		return false
+	}
+	root := &c07Frame{Fn: fi.Fn}
+	origins, complete := c07Origins(w, root, st.Val, fi.GuardsOf(st))
+	if !complete {
+		return false, "value too deep to follow"
+	}
+	nAdd := 0
+	for _, o := range origins {
+		switch x := o.V.(type) {
 		case *ssa.Const:
 			if x.Value == nil && namedOf(x.Type()) == "time.Time" {
-				return true
+				continue
 			}
 		case *ssa.Call:
 			if calleeName(x) == "(time.Time).Add" && len(x.Call.Args) == 2 {
-				if desc(x.Call.Args[1]) != ed {
-					why = "the duration added is " + desc(x.Call.Args[1])
-					return false
+				dur := o.F.lift(desc(x.Call.Args[1]))
+				tested := labelHas(o.Guards, "NE("+dur+",const:0)")
+				if ok, why := c07RequestedDuration(w, fi.Fn, dur, tested, 0); !ok {
+					return false, why
 				}
-				if !isSigningTime(x.Call.Args[0]) {
-					why = "the duration is added to " + desc(x.Call.Args[0]) + ", not to the signing time of the same request"
-					return false
-				}
-				if !labelHas(gStore, want) && !labelHas(fi.GuardsOf(x), want) {
-					why = "the sum is computed and stored without the test ExpiryDuration != 0"
-					return false
+				if !isSigningTime(x.Call.Args[0], o.F) {
+					return false, "the duration is added to " + o.F.lift(desc(x.Call.Args[0])) + ", not to the signing time of the same request"
 				}
 				nAdd++
-				return true
+				continue
 			}
 		}
-		why = "the expiry may be " + desc(v)
-		return false
-	}
-	if !walk(st.Val, 0) {
-		return false, why
+		return false, "the expiry may be " + o.F.lift(desc(o.V))
 	}
 	if nAdd == 0 {
 		return false, "no SigningTime.Add(ExpiryDuration) reaches the field"
@@ -311,29 +674,106 @@ func c07ExpiryValue(fi *FnInfo, st *ssa.Store, fa *ssa.FieldAddr, ed string) (bo
 	return true, ""
 }
 
-// ---- blob descriptor generator ------------------------------------------------------
-
-// c07Generator: a function value the builder creates as the descriptor generator, with the way the builder's parameters
-// appear inside its body.
-type c07Generator struct {
-	Made *ssa.MakeClosure // the function value, in the builder
-	Body *ssa.Function    // the code it runs: the literal's body, or the method behind a bound method value
-	// Captured renders, in Body's frame, the builder parameter whose type satisfies pred ("free:x" for a closure,
-	// "param:recv.field" for a bound method), or "?:…" when there is none.
-	Captured func(pred func(types.Type) bool) string
+// c07RequestedDuration: the quantity rendered dur in fn's vocabulary (tested: already known to be non-zero where it is
+// used) is the ExpiryDuration of the options the signer was called with, and is known non-zero.
+//
+// Decided in fn when fn itself receives the options (a parameter with an ExpiryDuration field). A function that receives
+// less — the bare duration, or the options but is only called under the test — is decided at its call sites instead:
+// when the list of call sites is closed (c07CallSites) the function runs only on behalf of those calls, so the quantity is
+// what each of them passes and the facts guarding each call hold inside. Every call site must then qualify.
+func c07RequestedDuration(w *World, fn *ssa.Function, dur string, tested bool, depth int) (bool, string) {
+	opt := paramWhere(fn, hasField("ExpiryDuration"))
+	isReq := opt != "param:?" && dur == opt+".ExpiryDuration"
+	if isReq && tested {
+		return true, ""
+	}
+	fail := func() (bool, string) {
+		if !isReq {
+			return false, "the duration added is " + dur + " in " + fnName(fn) + " (not the ExpiryDuration of the signing options)"
+		}
+		return false, "the sum is computed and stored without the test ExpiryDuration != 0"
+	}
+	if depth >= 3 || !strings.Contains(dur, "param:") {
+		return fail()
+	}
+	sites, closed := c07CallSites(w, fn)
+	if !closed || len(sites) == 0 {
+		return fail()
+	}
+	for _, site := range sites {
+		up := c07LiftOnce(dur, fn, site)
+		if strings.Contains(up, "param?:") {
+			return fail()
+		}
+		t := tested || labelHas(w.Info(site.Parent()).GuardsOf(site), "NE("+up+",const:0)")
+		if ok, why := c07RequestedDuration(w, site.Parent(), up, t, depth+1); !ok {
+			return false, why
+		}
+	}
+	return true, ""
 }
 
-// c07Generators returns the generator bodies a builder creates.
+// ---- blob descriptor generator ------------------------------------------------------
+
+// c07Capture: one value the maker of a generator puts into it.
+type c07Capture struct {
+	// Reads: how the captured value is rendered where the body reads it ("free:x" in a function literal,
+	// "param:recv.field" in a bound method), or "?:why" when a read there is not known to yield Val.
+	Reads string
+	Val   ssa.Value // the value captured, in the maker's frame
+	Type  types.Type
+}
+
+// c07Generator: a function value created as descriptor generator, with what its maker put into it.
+type c07Generator struct {
+	Made *ssa.MakeClosure // the function value
+	// Maker: the function in whose frame the captured values live — the function that creates the function value (a
+	// builder both wrappers call, or a wrapper itself) or, for a method bound to an object obtained from a constructor,
+	// that constructor (Via is then the call of the constructor next to Made).
+	Maker *ssa.Function
+	Via   *ssa.Call
+	Body  *ssa.Function // the code it runs: the literal's body, or the method behind a bound method value
+	Caps  []c07Capture
+}
+
+// capture: the capture whose type satisfies pred; it must be the only one (the role "the media type" / "the reader" is
+// given by the type, so two candidates leave the role undecided).
+func (g c07Generator) capture(pred func(types.Type) bool) c07Capture {
+	var found []c07Capture
+	for _, cp := range g.Caps {
+		if cp.Type != nil && pred(cp.Type) {
+			found = append(found, cp)
+		}
+	}
+	switch len(found) {
+	case 1:
+		return found[0]
+	case 0:
+		return c07Capture{Reads: "?:nothing-of-that-type-captured"}
+	}
+	return c07Capture{Reads: "?:ambiguous"}
+}
+
+// c07Generators returns the generator function values fn creates.
 //
-// Two shapes say the same thing: a function literal that captures the builder's parameters (each call of the builder
-// makes a new closure over its own arguments), and a method value bound to a receiver object the builder has just
-// allocated and filled from its parameters. In the second shape a read of recv.f inside the method yields the builder's
-// parameter provided (1) the receiver object is allocated in the builder and used there only to fill its fields and to
-// bind the method, (2) field f is written exactly once in the builder, with that parameter, and (3) no other function of
-// the module writes field f of that struct type. All three are checked here.
-func c07Generators(w *World, builder *ssa.Function) []c07Generator {
+// Two shapes say the same thing: a function literal that captures variables of its maker, and a method value bound to a
+// receiver object the maker has just allocated and filled.
+//
+// Literal: a captured variable reads, inside the literal, as the one value the maker stores into it, provided the
+// variable is stored exactly once in the maker and neither this literal nor one nested in it writes it.
+//
+// Bound method: a read of recv.f inside the method yields the value the maker stored provided (1) the receiver object is
+// allocated in the maker and used there only to fill its fields and to bind the method — or the maker is a constructor
+// that only fills the object and returns it, and the function binding the method uses the constructor's result for
+// nothing else — so the only other holder of the object is the method's receiver; (2) field f of this object is written exactly once in the maker; (3) every other
+// write of field f of that struct type anywhere in the module goes to an object the writing function has itself just
+// allocated (the base of the field address is an Alloc instruction of that function): an allocation yields a new object
+// each time it runs, so such a write cannot hit the object bound here — this is what lets two wrappers each fill their
+// own object; (4) the method uses its receiver only to read or address fields (it does not overwrite the object as a
+// whole or pass it on). All four are checked here.
+func c07Generators(w *World, maker *ssa.Function) []c07Generator {
 	var out []c07Generator
-	for _, b := range builder.Blocks {
+	for _, b := range maker.Blocks {
 		for _, in := range b.Instrs {
 			mc, ok := in.(*ssa.MakeClosure)
 			if !ok {
@@ -344,10 +784,25 @@ func c07Generators(w *World, builder *ssa.Function) []c07Generator {
 				continue
 			}
 			if !strings.HasPrefix(fn.Synthetic, "bound method wrapper") {
-				cl := fn
-				out = append(out, c07Generator{Made: mc, Body: cl, Captured: func(pred func(types.Type) bool) string {
-					return freeVarOfParam(builder, cl, pred)
-				}})
+				gen := c07Generator{Made: mc, Maker: maker, Body: fn}
+				for i, bd := range mc.Bindings {
+					if i >= len(fn.FreeVars) {
+						break
+					}
+					cp := c07Capture{Reads: "free:" + fn.FreeVars[i].Name(), Val: bd, Type: bd.Type()}
+					if al, isAl := bd.(*ssa.Alloc); isAl {
+						// captured by reference
+						cp.Type = al.Type().Underlying().(*types.Pointer).Elem()
+						cp.Val = onlyDirectStore(al)
+						if cp.Val == nil {
+							cp.Reads = "?:captured-variable-assigned-more-than-once"
+						} else if closureWrites(mc, al, 0) {
+							cp.Reads = "?:captured-variable-written-by-the-literal"
+						}
+					}
+					gen.Caps = append(gen.Caps, cp)
+				}
+				out = append(out, gen)
 				continue
 			}
 			mobj, _ := fn.Object().(*types.Func)
@@ -358,71 +813,227 @@ func c07Generators(w *World, builder *ssa.Function) []c07Generator {
 			if m == nil || m.Blocks == nil || len(m.Params) == 0 || !w.IsProductFn(m) {
 				continue
 			}
-			recvAlloc, _ := mc.Bindings[0].(*ssa.Alloc)
-			recvName := m.Params[0].Name()
-			out = append(out, c07Generator{Made: mc, Body: m, Captured: func(pred func(types.Type) bool) string {
-				if recvAlloc == nil || recvAlloc.Referrers() == nil {
-					return "?:receiver-not-local"
+			gen := c07Generator{Made: mc, Maker: maker, Body: m}
+			switch r := mc.Bindings[0].(type) {
+			case *ssa.Alloc:
+				gen.Caps = c07BoundCaptures(w, r, mc, m)
+			case *ssa.Call:
+				// the receiver object comes from a constructor: a module function every Return of which hands back the one
+				// object it allocates, and whose result is used here for nothing but binding the method
+				gen.Caps = []c07Capture{{Reads: "?:receiver-not-local"}}
+				ctor := staticCallee(r)
+				if ctor == nil || ctor.Blocks == nil || !w.IsProductFn(ctor) || ctor.Signature.Results().Len() != 1 || len(r.Call.Args) != len(ctor.Params) {
+					break
 				}
-				// (1) the receiver object is only filled and bound
-				for _, r := range *recvAlloc.Referrers() {
-					switch x := r.(type) {
-					case *ssa.FieldAddr, *ssa.DebugRef:
-					case *ssa.MakeClosure:
-						if x != mc {
-							return "?:receiver-shared"
+				var obj *ssa.Alloc
+				okObj := true
+				for _, cb := range ctor.Blocks {
+					if ret, ok := blockTerm(cb).(*ssa.Return); ok {
+						al, isAl := ret.Results[0].(*ssa.Alloc)
+						if !isAl || (obj != nil && obj != al) {
+							okObj = false
 						}
-					default:
-						return "?:receiver-escapes"
+						obj = al
 					}
 				}
-				field := ""
-				for _, r := range *recvAlloc.Referrers() {
-					fa, ok := r.(*ssa.FieldAddr)
-					if !ok || fa.Referrers() == nil {
-						continue
-					}
-					for _, rr := range *fa.Referrers() {
-						st, ok := rr.(*ssa.Store)
-						if !ok || st.Addr != ssa.Value(fa) {
-							return "?:receiver-field-escapes"
-						}
-						if p := c07ParamOf(st.Val, builder); p != nil && pred(p.Type()) {
-							if field != "" {
-								return "?:ambiguous"
-							}
-							field = fieldName(recvAlloc.Type(), fa.Field)
+				if r.Referrers() != nil {
+					for _, rr := range *r.Referrers() {
+						if _, isDbg := rr.(*ssa.DebugRef); !isDbg && rr != ssa.Instruction(mc) {
+							okObj = false
 						}
 					}
 				}
-				if field == "" {
-					return "?:no-field-holds-the-parameter"
+				if okObj && obj != nil {
+					gen.Maker, gen.Via = ctor, r
+					gen.Caps = c07BoundCaptures(w, obj, nil, m)
 				}
-				// (2) written once in the builder, (3) written nowhere else
-				n := 0
-				st := namedOf(recvAlloc.Type())
-				for _, g := range w.Funcs {
-					for _, gb := range g.Blocks {
-						for _, gi := range gb.Instrs {
-							fa, ok := gi.(*ssa.FieldAddr)
-							if !ok || namedOf(fa.X.Type()) != st || fieldName(fa.X.Type(), fa.Field) != field {
-								continue
-							}
-							if addrWritten(fa, 0) {
-								if g != builder {
-									return "?:field-written-in-" + fnName(g)
-								}
-								n++
-							}
-						}
-					}
-				}
-				if n != 1 {
-					return fmt.Sprintf("?:field-written-%d-times", n)
-				}
-				return "param:" + recvName + "." + field
-			}})
+			default:
+				gen.Caps = []c07Capture{{Reads: "?:receiver-not-local"}}
+			}
+			out = append(out, gen)
 		}
 	}
 	return out
+}
+
+// c07BoundCaptures: the fields of the receiver object of a bound method value, as captures (conditions (1)–(4) above).
+//
+// recvAlloc is the allocation of the receiver object; mc the method value it is bound into when that happens in the
+// allocating function itself, nil when the allocating function is a constructor that returns the object instead (the
+// caller has checked that the constructor's result is used for nothing but binding the method).
+func c07BoundCaptures(w *World, recvAlloc *ssa.Alloc, mc *ssa.MakeClosure, m *ssa.Function) []c07Capture {
+	broken := func(why string) []c07Capture {
+		// nothing is known about what the method reads: every role stays undecided
+		return []c07Capture{{Reads: "?:" + why}}
+	}
+	if recvAlloc == nil || recvAlloc.Referrers() == nil {
+		return broken("receiver-not-local")
+	}
+	st, isStruct := recvAlloc.Type().Underlying().(*types.Pointer).Elem().Underlying().(*types.Struct)
+	if !isStruct {
+		return broken("receiver-not-a-struct")
+	}
+	// (1) the receiver object is only filled and bound
+	for _, r := range *recvAlloc.Referrers() {
+		switch x := r.(type) {
+		case *ssa.FieldAddr, *ssa.DebugRef:
+		case *ssa.MakeClosure:
+			if mc == nil || x != mc {
+				return broken("receiver-shared")
+			}
+		case *ssa.Return:
+			if mc != nil {
+				return broken("receiver-escapes")
+			}
+		default:
+			return broken("receiver-escapes")
+		}
+	}
+	// (4) the method only reads / addresses fields of its receiver
+	recv := m.Params[0]
+	if recv.Referrers() != nil {
+		for _, r := range *recv.Referrers() {
+			switch x := r.(type) {
+			case *ssa.FieldAddr, *ssa.DebugRef:
+			case *ssa.UnOp:
+				if x.Op != token.MUL {
+					return broken("receiver-used-as-a-whole-in-the-method")
+				}
+			default:
+				return broken("receiver-used-as-a-whole-in-the-method")
+			}
+		}
+	}
+	stored := map[int][]ssa.Value{}
+	var order []int
+	for _, r := range *recvAlloc.Referrers() {
+		fa, ok := r.(*ssa.FieldAddr)
+		if !ok || fa.Referrers() == nil {
+			continue
+		}
+		for _, rr := range *fa.Referrers() {
+			s, ok := rr.(*ssa.Store)
+			if !ok || s.Addr != ssa.Value(fa) {
+				return broken("receiver-field-escapes")
+			}
+			if _, seen := stored[fa.Field]; !seen {
+				order = append(order, fa.Field)
+			}
+			stored[fa.Field] = append(stored[fa.Field], s.Val)
+		}
+	}
+	tname := namedOf(recvAlloc.Type())
+	var caps []c07Capture
+	for _, fld := range order {
+		name := st.Field(fld).Name()
+		cp := c07Capture{Reads: "param:" + recv.Name() + "." + name, Val: stored[fld][0], Type: st.Field(fld).Type()}
+		if len(stored[fld]) != 1 {
+			cp.Reads = fmt.Sprintf("?:field-written-%d-times", len(stored[fld]))
+		}
+		// (2) written once on this object, (3) otherwise only on objects the writer has just allocated
+		n := 0
+		for _, g := range w.Funcs {
+			for _, gb := range g.Blocks {
+				for _, gi := range gb.Instrs {
+					fa, ok := gi.(*ssa.FieldAddr)
+					if !ok || fa.Field != fld || namedOf(fa.X.Type()) != tname || !addrWritten(fa, 0) {
+						continue
+					}
+					if fa.X == ssa.Value(recvAlloc) {
+						n++
+					} else if al, isAl := fa.X.(*ssa.Alloc); !isAl || al.Parent() != g {
+						cp.Reads = "?:field-written-in-" + fnName(g)
+					}
+				}
+			}
+		}
+		if n != 1 && !strings.HasPrefix(cp.Reads, "?:") {
+			cp.Reads = fmt.Sprintf("?:field-written-%d-times", n)
+		}
+		caps = append(caps, cp)
+	}
+	return caps
+}
+
+// c07GenUse: a generator as one of the API wrappers hands it on.
+type c07GenUse struct {
+	Gen c07Generator
+	// Call: the wrapper's call of Gen.Maker (the builder that made the generator, or the constructor of the object the
+	// wrapper binds the method to); nil when the captured values are values of the wrapper itself.
+	Call *ssa.Call
+}
+
+// inWrapper: what capture cp holds, as a value of the wrapper's frame — the captured value itself when the wrapper is the
+// maker; when a builder or constructor is, the captured value must be a parameter of that function and stands for the
+// argument the wrapper passes for it.
+func (u c07GenUse) inWrapper(cp c07Capture) ssa.Value {
+	if cp.Val == nil || strings.HasPrefix(cp.Reads, "?:") {
+		return nil
+	}
+	if u.Call == nil {
+		return cp.Val
+	}
+	p := c07ParamOf(cp.Val, u.Gen.Maker)
+	if p == nil {
+		return nil
+	}
+	if i := c07ParamIndex(u.Gen.Maker, p); i >= 0 && i < len(u.Call.Call.Args) {
+		return u.Call.Call.Args[i]
+	}
+	return nil
+}
+
+// c07WrapperGenerators: the descriptor generators the wrapper hands to somebody (anchored by role: an argument of type
+// BlobDescriptorGenerator of any call in the wrapper), traced to the function value: made by the wrapper itself, or
+// returned by a module function ("builder") the wrapper calls. why explains an argument that could not be traced.
+func c07WrapperGenerators(w *World, wrapper *ssa.Function) (uses []c07GenUse, why string) {
+	seen := map[ssa.Value]bool{}
+	for _, ci := range allCalls(wrapper) {
+		for _, a := range ci.Common().Args {
+			if namedOf(a.Type()) != "ngo.BlobDescriptorGenerator" {
+				continue
+			}
+			v := loadOrigin(unwrap(loadOrigin(a)))
+			if seen[v] {
+				continue
+			}
+			seen[v] = true
+			switch x := v.(type) {
+			case *ssa.MakeClosure:
+				for _, gen := range c07Generators(w, wrapper) {
+					if gen.Made == x {
+						uses = append(uses, c07GenUse{Gen: gen, Call: gen.Via})
+					}
+				}
+				continue
+			case *ssa.Call:
+				g := staticCallee(x)
+				if g != nil && g.Blocks != nil && w.IsProductFn(g) && g.Signature.Results().Len() == 1 {
+					// the function values the builder returns (that it returns nothing else is checked by the caller, per
+					// builder); when it returns none of those it creates, all of them are reported so that the caller can say so
+					gens := c07Generators(w, g)
+					var returned []c07Generator
+					for _, gen := range gens {
+						for _, b := range g.Blocks {
+							if r, ok := blockTerm(b).(*ssa.Return); ok && len(r.Results) == 1 && unwrap(r.Results[0]) == ssa.Value(gen.Made) {
+								returned = append(returned, gen)
+								break
+							}
+						}
+					}
+					if len(returned) > 0 {
+						gens = returned
+					}
+					for _, gen := range gens {
+						uses = append(uses, c07GenUse{Gen: gen, Call: x})
+					}
+					if len(gens) > 0 {
+						continue
+					}
+				}
+			}
+			why = "the generator handed on at " + w.InstrPos(ci) + " is " + desc(v) + ", not a function value made here or by a module function called here"
+		}
+	}
+	return uses, why
 }
